@@ -31,18 +31,6 @@ thread_local! {
     static STATE: RefCell<AnchorState> = RefCell::new(AnchorState::default());
 }
 
-pub(crate) fn reset() {
-    STATE.with(|state| {
-        let mut s = state.borrow_mut();
-        s.stack.clear();
-        s.store.rc.clear();
-        s.store.arc.clear();
-        s.store.rc_recursive.clear();
-        s.store.arc_recursive.clear();
-        s.in_progress.clear();
-    });
-}
-
 pub(crate) fn with_anchor_context<R>(
     kind: AnchorKind,
     anchor: Option<usize>,
@@ -153,31 +141,27 @@ pub(crate) fn recursive_anchor_in_progress(id: usize) -> bool {
 }
 
 pub(crate) fn store_rc<T: Any>(id: usize, rc: Rc<T>) {
-    STATE.with(|state| {
-        let mut s = state.borrow_mut();
-        s.store.rc.insert(id, rc);
-    });
+    // A value this replaces is dropped only after the borrow is released (see `with_document_scope`).
+    let replaced = STATE.with(|state| state.borrow_mut().store.rc.insert(id, rc));
+    drop(replaced);
 }
 
 pub(crate) fn store_arc<T: Any + Send + Sync>(id: usize, arc: Arc<T>) {
-    STATE.with(|state| {
-        let mut s = state.borrow_mut();
-        s.store.arc.insert(id, arc);
-    });
+    // A value this replaces is dropped only after the borrow is released (see `with_document_scope`).
+    let replaced = STATE.with(|state| state.borrow_mut().store.arc.insert(id, arc));
+    drop(replaced);
 }
 
 pub(crate) fn store_rc_recursive<T: Any>(id: usize, rc: Rc<T>) {
-    STATE.with(|state| {
-        let mut s = state.borrow_mut();
-        s.store.rc_recursive.insert(id, rc);
-    });
+    // A value this replaces is dropped only after the borrow is released (see `with_document_scope`).
+    let replaced = STATE.with(|state| state.borrow_mut().store.rc_recursive.insert(id, rc));
+    drop(replaced);
 }
 
 pub(crate) fn store_arc_recursive<T: Any + Send + Sync>(id: usize, arc: Arc<T>) {
-    STATE.with(|state| {
-        let mut s = state.borrow_mut();
-        s.store.arc_recursive.insert(id, arc);
-    });
+    // A value this replaces is dropped only after the borrow is released (see `with_document_scope`).
+    let replaced = STATE.with(|state| state.borrow_mut().store.arc_recursive.insert(id, arc));
+    drop(replaced);
 }
 
 pub(crate) fn get_rc<T: Any>(id: usize) -> Result<Option<Rc<T>>, String> {
@@ -250,14 +234,24 @@ pub(crate) fn get_arc_recursive<T: Any + Send + Sync>(id: usize) -> Result<Optio
 }
 
 pub(crate) fn with_document_scope<R>(f: impl FnOnce() -> R) -> R {
-    reset();
-    struct ResetGuard;
-    impl Drop for ResetGuard {
+    // A call may be nested inside a user `Deserialize` impl of another call on this thread: the
+    // enclosing call's anchors, context stack and in-progress counts are set aside for the duration
+    // of this document and put back afterwards (also on unwind), so that neither call sees or
+    // clears the other's state.
+    struct ScopeGuard {
+        outer: Option<AnchorState>,
+    }
+    impl Drop for ScopeGuard {
         fn drop(&mut self) {
-            reset();
+            let outer = self.outer.take().unwrap_or_default();
+            let finished = STATE.with(|state| std::mem::replace(&mut *state.borrow_mut(), outer));
+            // Dropping this document's shared values can run user `Drop` code, which may call
+            // back into this crate: do it only after the borrow above has been released.
+            drop(finished);
         }
     }
-    let guard = ResetGuard;
+    let outer = STATE.with(|state| std::mem::take(&mut *state.borrow_mut()));
+    let guard = ScopeGuard { outer: Some(outer) };
     // The error-location fallback of an enclosing call (this one may be nested inside a user
     // `Deserialize` impl) describes the enclosing document, not this one.
     let fallback = crate::de_error::MissingFieldLocationGuard::cleared();
